@@ -90,9 +90,20 @@ def computed_items_item(rng):
     return it
 
 
+def per_item_deploy_item(rng, n_items, par):
+    """the step inside the loop's sub-workflow is deployed with a configuration computed from the item: every item run deploys
+    with ITS configuration (the prepared sub-workflow is shared by all items)"""
+    it = loop_item(rng, n_items, par, ['success'] * n_items, delays=[5] * n_items)
+    it['subwfs']['sub.yaml']['steps']['w']['fields']['deploy'] = tmap({'deployer_name': lit('scripted'), 'tag': ref('input.id')})
+    it['at'] = 'per-item deployment configuration n=%d par=%d' % (n_items, par)
+    return it
+
+
 def items_for(ctx):
     def f(rng):
         items = []
+        items.append(per_item_deploy_item(rng, 3, 1))
+        items.append(per_item_deploy_item(rng, 4, 2))
         items.append(nested_loop_item(rng, 2, ['success', 'success']))
         items.append(nested_loop_item(rng, 2, ['success', 'error']))
         items.append(computed_items_item(rng))
